@@ -78,6 +78,32 @@ def deps_failed(pid, failed):
     return sorted(set(failed) & seen)
 
 
+def xcheck(pid, res, limit=60):
+    """Re-evaluate sampled records of the extracted OCaml driver INSIDE Coq: for each (entry, input, output) sample write
+    `Goal entry input = output. vm_compute. reflexivity.` and compile it.  Takes extraction + driver.ml out of the trusted
+    base for those records.  Returns (n_ok, n_total, broken_detail_or_None)."""
+    samples = dict(getattr(res, "xsamples", {}) or {})
+    if not samples:
+        from harness import core as _c
+        samples = {k: v[:1] for k, v in _c.XSAMPLES.items()}
+    ex = dict((n, m) for m, n in B.exports(only_compiled=True))
+    items = [(n, a, o) for n, l in sorted(samples.items()) if n in ex for (a, o) in l][:limit]
+    if not items:
+        return 0, 0, None
+    mods = sorted({ex[n] for n, _, _ in items})
+    z = lambda x: str(x) if x >= 0 else "(%d)" % x
+    lst = lambda l: "[" + "; ".join(z(int(x)) for x in l) + "]"
+    body = "".join("Goal %s.%s %s = %s.\nProof. vm_compute. reflexivity. Qed.\n" % (ex[n], n, lst(a), lst(o)) for n, a, o in items)
+    d = os.path.join(core.CACHE, "xcheck")
+    os.makedirs(d, exist_ok=True)
+    f = os.path.join(d, "XCheck_%s.v" % pid)
+    open(f, "w").write("Require Import JV.Base.Prelude.\n" + "".join("Require %s.\n" % m for m in mods) + body)
+    rc, out = B.sh("ulimit -s unlimited 2>/dev/null; timeout 600 coqc -Q %s JV -w none %s 2>&1" % (COQ, f), cwd=d, timeout=700)
+    if rc == 0:
+        return len(items), len(items), None
+    return 0, len(items), out[-1200:]
+
+
 def known_match(pid, failure, known):
     for k in known.get("known", []):
         if k.get("property") != pid:
@@ -171,6 +197,16 @@ def main():
         res = core.Result()
         broken.append(dict(kind="harness-exception", detail=traceback.format_exc()[-3000:]))
 
+    # extraction cross-check: sampled driver records re-evaluated by the kernel's VM
+    xc_ok, xc_n, xc_err = (0, 0, None)
+    try:
+        xc_ok, xc_n, xc_err = xcheck(pid, res)
+    except Exception:
+        import traceback
+        xc_err = traceback.format_exc()[-800:]
+    if xc_err:
+        broken.append(dict(kind="extraction-crosscheck (Coq vm_compute disagrees with the extracted driver, or the file does not compile)", detail=xc_err))
+
     known = core.load_known()
     violations = []
     printed = set()
@@ -219,6 +255,7 @@ def main():
         notes=res.notes[:20],
         programs=max(1, res.traces), disagreements_checked=res.evaluations,
         broken=core.jsonable(broken)[:10], repo_tree=core.tree_hash(),
+        extraction_crosscheck=dict(records_re_evaluated_in_coq=xc_n, agreed=xc_ok),
     )
     if tier == "thorough" and props and all(p["ok"] for p in props):
         mods = " ".join("JV.Props." + os.path.basename(p["file"])[:-2] for p in props)
